@@ -60,6 +60,10 @@ fn gen_c<C: Suite>(seed: u64, run: u64, tier: Tier) -> Scenario {
     let new_target = p.chance(1, 3);
     // an existing target needs n-1 >= t helpers
     let (mut n, mut t) = gen_nt(&mut p, 3, max_n);
+    if let Some((wn, wt)) = maybe_wide::<C>(&mut p, 14) {
+        n = wn;
+        t = wt;
+    }
     if !new_target && t > n - 1 {
         t = n - 1;
     }
